@@ -27,7 +27,7 @@ import vlib
 
 PID = 'X01'
 SPECDIR = os.path.join(vlib.SPEC, 'query')
-ALLDEV = ['spin_on_closed', 'err_frame', 'row_err_unnoticed', 'silent_refusal']
+ALLDEV = ['spin_on_closed', 'err_frame', 'row_err_unnoticed', 'silent_refusal', 'cursor_stuck']
 FAULTS = ['version', 'query', 'row', 'scan']
 
 DEV_TEXT = {
@@ -38,12 +38,15 @@ DEV_TEXT = {
                  'not a JSON document',
     'row_err_unnoticed': 'a database error while the rows of a tick are read is not noticed (ClickhouseGetterPlanner.Scan never checks rows.Err()): '
                          'the frame is partial, the tail goes on and `from` is moved past lines that were never delivered',
+    'cursor_stuck': 'the frame loop advances the cursor with `if from.UnixNano() < e.TimestampNS { from = ts + 1 }` (queryRangeService.go Tail): a line whose '
+                    'timestamp EQUALS the cursor (exactly 1 ns after the newest line delivered so far) is delivered but does not move the cursor, so the '
+                    'same line is delivered again on every tick until a newer line arrives',
     'silent_refusal': 'an empty or unparsable `query` is answered with status 200 and an empty body (the handler only logs and returns)',
 }
 
 INV_SPEC = ('TypeOK NoDuplicate DueDelivered FutureNotSkipped OldNeverDelivered OnlyStoredLines NoBadFrame '
             'ServiceStopsAfterHandler DrainerOnlyAfterHandler ClosedOnlyByService RefusedStartsNothing')
-INV_ASCODED = ('TypeOK NoDuplicate FutureNotSkipped OldNeverDelivered OnlyStoredLines '
+INV_ASCODED = ('TypeOK FutureNotSkipped OldNeverDelivered OnlyStoredLines '
                'ServiceStopsAfterHandler DrainerOnlyAfterHandler ClosedOnlyByService RefusedStartsNothing')
 LIVE = 'NoFrameAfterReturn Termination SenderNeverStuck ClosedEndsHandler EventuallyDelivered'
 LIVE_ASCODED = 'NoFrameAfterReturn Termination SenderNeverStuck'
@@ -73,6 +76,7 @@ CONSTANTS
   ReqKinds = {%(kinds)s}
   MaxTicks = %(ticks)d
   LeaveAfter = %(leave)d
+  MinTs = %(mints)d
   StoresPerTick = %(spt)d
 %(inv)s
 CHECK_DEADLOCK FALSE
@@ -161,9 +165,10 @@ def model_check(tier, pool):
             'inv': '', 'props': 'PROPERTIES ' + LIVE_ASCODED}, None, 3000, 6))
     # 4. every switch breaks the property it is named for; the BFS counterexample is the shortest schedule that shows it
     for dev, inv, faults in (('spin_on_closed', 'NoBadFrame', ['query']), ('spin_on_closed', 'NoBadFrame', ['version']),
-                             ('err_frame', 'NoBadFrame', ['scan']), ('row_err_unnoticed', 'DueDelivered', ['row'])):
-        jobs.append(pool.submit(mc_run, 'cex_%s_%s' % (dev, faults[0]), 'MC_TailSched.tla', CFG_SCHED % {
-            'lines': ints(2), 'maxt': 4, 'dev': q([dev]), 'faults': q(faults), 'kinds': q(['ok']), 'ticks': 3, 'leave': 99, 'spt': 2,
+                             ('err_frame', 'NoBadFrame', ['scan']), ('row_err_unnoticed', 'DueDelivered', ['row']),
+                             ('cursor_stuck', 'NoDuplicate', [])):
+        jobs.append(pool.submit(mc_run, 'cex_%s_%s' % (dev, (faults or ['none'])[0]), 'MC_TailSched.tla', CFG_SCHED % {
+            'lines': ints(2), 'maxt': 4, 'dev': q([dev]), 'faults': q(faults), 'kinds': q(['ok']), 'ticks': 3, 'leave': 99, 'spt': 2, 'mints': 2 if dev == 'cursor_stuck' else 0,
             'inv': 'INVARIANTS ' + inv}, inv, 600, 2))
     jobs.append(pool.submit(mc_run, 'cex_spin_liveness', 'MC_Tail.tla', CFG_MC % {
         'lines': ints(1), 'maxt': 2, 'dev': q(['spin_on_closed']), 'wire': 1, 'kinds': q(['ok']),
@@ -178,7 +183,7 @@ def simulate(kinds, n, depth, seed, ticks, leave, lines=4, maxt=6):
     try:
         cfgp = os.path.join(sd, 'sim.cfg')
         open(cfgp, 'w').write(CFG_SCHED % {'lines': ints(lines), 'maxt': maxt, 'dev': q(ALLDEV), 'faults': q(FAULTS), 'kinds': q(kinds),
-                                           'ticks': ticks, 'leave': leave, 'spt': 1, 'inv': ''})
+                                           'ticks': ticks, 'leave': leave, 'spt': 1, 'mints': 0, 'inv': ''})
         res = vlib.tlc(SPECDIR, 'MC_TailSched.tla', 'sim.cfg', timeout=600, copy_extra=[cfgp], workers=4,
                        simulate={'num': n, 'file': True}, depth=depth, seed=seed)
         try:
@@ -205,6 +210,9 @@ def project(sched, sid, rnd, origin):
     fault, fault_at, cut = 'none', 0, 0
     left = None
     feats = {'late_store': 0, 'stores': 0}
+    # the abstract cursor as the code moves it: a line stored exactly AT the cursor after a delivery gets the concrete
+    # timestamp "newest delivered + 1 ns" (adj = 1), the concrete value of the cursor
+    anow, afrom, astore, adeliv, tracking = 2, 1, [], False, True
 
     def sync():
         nonlocal awaited, ticks
@@ -225,21 +233,38 @@ def project(sched, sid, rnd, origin):
                 req = e['k']
             elif op == 'store':
                 pre.append({'id': e['a'], 'ts': e['b'], 'stream': 1 + e['a'] % 2})
+                astore.append(e['b'])
                 feats['stores'] += 1
+            elif op == 'tick':
+                anow += 1
+                afrom = anow - 1
             continue
         if op == 'store':
             sync()
-            steps.append({'op': 'store', 'lines': [{'id': e['a'], 'ts': e['b'], 'stream': 1 + e['a'] % 2}]})
+            ln = {'id': e['a'], 'ts': e['b'], 'stream': 1 + e['a'] % 2}
+            if tracking and adeliv and e['b'] == afrom:
+                ln['adj'] = 1
+                feats['at_cursor'] = feats.get('at_cursor', 0) + 1
+            astore.append(e['b'])
+            steps.append({'op': 'store', 'lines': [ln]})
             feats['stores'] += 1
             if nq > 0:
                 feats['late_store'] += 1
         elif op == 'tick':
             ticks += 1
+            anow += 1
         elif op == 'q':
             nq += 1
             ticks = 0
             if e['k'] != 'none':
                 fault, fault_at, cut = e['k'], nq, e['a']
+                tracking = False
+            else:
+                rows = [t for t in astore if afrom <= t < anow]
+                if rows:
+                    adeliv = True
+                    if max(rows) > afrom:
+                        afrom = max(rows) + 1
         elif op == 'fault':
             fault, fault_at = 'version', 0
             if rnd.random() < 0.7:
@@ -270,13 +295,16 @@ def project(sched, sid, rnd, origin):
         if s['op'] == 'store' and awaited > 0:
             for ln in s['lines']:
                 r = rnd.random()
-                if r < 0.12:
+                if ln.get('adj'):
+                    pass
+                elif r < 0.08:
                     ln['adj'] = 1
-                elif r < 0.2:
+                elif r < 0.14:
                     ln['adj'] = 2
     sc = {'id': str(sid), 'req': req, 'query': '', 'fault': fault, 'fault_at': fault_at, 'cut': cut, 'pre': pre, 'steps': merged,
           'grace_ms': 8000 if req == 'ok' else 3000,
-          'meta': {'origin': origin, 'queries': nq, 'leave': left or 'close-at-end', 'late_store': feats['late_store'], 'stores': feats['stores']}}
+          'meta': {'origin': origin, 'queries': nq, 'leave': left or 'close-at-end', 'late_store': feats['late_store'], 'stores': feats['stores'],
+                   'at_cursor': feats.get('at_cursor', 0)}}
     return sc
 
 
@@ -286,11 +314,11 @@ def stratify(cands, n, rnd):
         groups = {}
         for c in cs:
             meta = c['meta']
-            key = (c['fault'], meta['leave'], min(meta['queries'], 4), min(meta['late_store'], 2))
+            key = (c['fault'], meta['leave'], min(meta['queries'], 4), min(meta['late_store'], 2), meta.get('at_cursor', 0) > 0)
             groups.setdefault(key, []).append(c)
         keys = sorted(groups, key=str)
         rnd.shuffle(keys)
-        keys.sort(key=lambda k: -(k[2] + 2 * k[3]))
+        keys.sort(key=lambda k: -(k[2] + 2 * k[3] + (4 if k[4] else 0)))
         out = []
         while len(out) < m and any(groups[k] for k in keys):
             for k in keys:
@@ -369,6 +397,8 @@ def explain(sc, trace, nlines, maxt, sd):
              'row': ['row_err_unnoticed']}.get(sc['fault'], [])
     if sc['req'] in ('empty', 'noparse'):
         guess = ['silent_refusal']
+    if not guess and sc['req'] == 'ok':
+        guess = ['cursor_stuck']
     tried = []
     for cand in ([guess] if guess else []) + [ALLDEV]:
         runs += 1
@@ -427,6 +457,7 @@ def run(tier):
     sd = vlib.scratch('x01')
     pool = cf.ThreadPoolExecutor(max_workers=10)
     try:
+        marks = {}
         mcjobs = model_check(tier, pool)
         # ---- schedules from TLC
         cands = []
@@ -464,6 +495,7 @@ def run(tier):
 
         for i, c in enumerate(chosen):
             c['id'] = str(i + 1)
+        marks['schedules_s'] = round(time.time() - t0, 1)
         drv = pool.submit(drive, chosen, 'sim')     # the real runs go on while TLC checks the models
         # ---- wait for the model checking: the counterexample schedules are replayed too
         mc = []
@@ -484,8 +516,10 @@ def run(tier):
                 sc['steps'] += [{'op': 'wait_eof', 'ms': 1500}, {'op': 'sleep', 'ms': 1200}, {'op': 'close'}]
                 sc['id'] = str(len(chosen) + len(cexs) + 1)
                 cexs.append(sc)
+        marks['model_checked_s'] = round(time.time() - t0, 1)
         runs = drive(cexs, 'cex') if cexs else []
         runs = drv.result() + runs
+        marks['replayed_s'] = round(time.time() - t0, 1)
         # ---- validate every recorded run
         infra = []
         work = []
@@ -613,7 +647,7 @@ def run(tier):
                                 stats['line_classes'].get('old', 0), stats['line_classes'].get('old_framed', 0),
                                 stats['line_classes'].get('due', 0), stats['line_classes'].get('due_framed', 0),
                                 stats['line_classes'].get('future', 0), stats['line_classes'].get('future_framed', 0)),
-            'wall_s': round(time.time() - t0, 1),
+            'wall_s': round(time.time() - t0, 1), 'phases': marks,
             'checker_cmd': 'tlc MC_Tail.tla (Dev={} invariants+liveness; as-coded); tlc -simulate MC_TailSched.tla -> cmd/x01 run -> tlc Trace_Tail.tla per run',
         }
         return {'level': 'model_checking', 'coverage': cov, 'violations': viols,
